@@ -11,11 +11,17 @@ IQ = "yowsup/layers/protocol_iq/layer.py"
 class Lock:                       # native stand-in used by the replay harness only
     def __init__(self):
         self.held = False
+        self.all_blocking = True
 
-    def acquire(self):
+    def acquire(self, blocking=True, timeout=-1):
+        if not (blocking and timeout < 0):
+            self.all_blocking = False
         if self.held:
-            raise RuntimeError("deadlock: acquire() of a lock this thread already holds")
+            if blocking and timeout < 0:
+                raise RuntimeError("deadlock: acquire() of a lock this thread already holds")
+            return False
         self.held = True
+        return True
 
     def release(self):
         if not self.held:
@@ -23,14 +29,19 @@ class Lock:                       # native stand-in used by the replay harness o
         self.held = False
 
 
-fields("Lock", held=Bool)
+# held: the lock is taken.  all_blocking (ghost): every acquire so far WAITED for the lock (acquire() / acquire(True)); a try-lock
+# (acquire(False) or a timeout) clears it.  The contracts below keep it true: whoever finds the lock taken waits for its turn - it
+# never skips its own work because another thread is inside (the other-thread half of the statement, as far as a sequential
+# contract can carry it).
+fields("Lock", held=Bool, all_blocking=Bool)
 
 
 @contract("<ext>", "Lock.acquire", assumed=True, reason="threading.Lock, sequential model: acquiring a held lock blocks forever")
-def acquire(self: Obj("Lock")):
-    requires(not self.held)
-    modifies(self.held)
-    ensures(self.held)
+def acquire(self: Obj("Lock"), blocking: Bool = True, timeout: Int = -1) -> Bool:
+    requires(implies(blocking and timeout < 0, not self.held))
+    modifies(self.held, self.all_blocking)
+    ensures(self.held and result == (not old(self.held)))
+    ensures(self.all_blocking == (old(self.all_blocking) and blocking and timeout < 0))
 
 
 @contract("<ext>", "Lock.release", assumed=True, reason="threading.Lock, sequential model")
@@ -47,8 +58,8 @@ extern("lower.send", event="lower.send", raises=True)
 
 @contract(LAYERS, "YowLayer.toLower")
 def toLower(self: Obj("YowLayer"), data: Opaque):
-    requires(not self.lock.held)
-    ensures(not self.lock.held)
+    requires(not self.lock.held and self.lock.all_blocking)
+    ensures(not self.lock.held and self.lock.all_blocking)
     ensures(n_events("lower.send") <= 1 and implies(is_none(self._YowLayer__lower), n_events("lower.send") == 0))
     # whatever the layer below raises reaches the caller, and the lock is free again
     propagates("lower.send", ensures=not self.lock.held and n_events("lower.send") == 1)
@@ -59,6 +70,7 @@ fields("YowNoiseLayer", _flush_lock=Obj("Lock"), _incoming_segments_queue=Opaque
        _YowLayer__upper=Opt(Opaque("upper")), lock=Obj("Lock"))
 opaque(LAYERS, "YowLayer.toUpper", event="toUpper", raises=True)
 extern("queue.qsize", event="queue.qsize", returns=Int)
+extern("queue.empty", event="queue.empty", returns=Bool)
 extern("noise.receive", event="noise.receive", raises=True, returns=Opaque)
 
 
@@ -67,10 +79,10 @@ opaque(NOISE, "YowNoiseLayer._flush_incoming_buffer", event="flush", raises=True
 
 @contract(NOISE, "YowNoiseLayer._flush_incoming_buffer", opaque_at_calls=True)
 def _flush_incoming_buffer(self: Obj("YowNoiseLayer")):
-    requires(not self._flush_lock.held)
-    ensures(not self._flush_lock.held)
-    propagates("toUpper", ensures=not self._flush_lock.held)
-    propagates("noise.receive", ensures=not self._flush_lock.held)
+    requires(not self._flush_lock.held and self._flush_lock.all_blocking)
+    ensures(not self._flush_lock.held and self._flush_lock.all_blocking)
+    propagates("toUpper", ensures=not self._flush_lock.held and self._flush_lock.all_blocking)
+    propagates("noise.receive", ensures=not self._flush_lock.held and self._flush_lock.all_blocking)
 
 
 @loop(NOISE, "YowNoiseLayer._flush_incoming_buffer", 1)
@@ -112,7 +124,7 @@ def waitPong(self: Obj("YowIqProtocolLayer"), id: Str):
 def gen_toLower(rng, n):
     for i in range(min(n, 40)):
         lower = None if i % 5 == 0 else {'$opaque': 'lower'}
-        yield {'inputs': {'self': {'_YowLayer__lower': lower, '_YowLayer__upper': None, 'lock': {'held': False}}, 'data': b'x'},
+        yield {'inputs': {'self': {'_YowLayer__lower': lower, '_YowLayer__upper': None, 'lock': {'held': False, 'all_blocking': True}}, 'data': b'x'},
                'raises_at': {'lower.send': [0]} if i % 2 else {}}
 
 
@@ -120,8 +132,8 @@ def gen__flush_incoming_buffer(rng, n):
     for i in range(min(n, 60)):
         k = rng.randrange(0, 4)
         sizes = list(range(k, -1, -1))
-        yield {'inputs': {'self': {'_flush_lock': {'held': False}, '_incoming_segments_queue': {'$opaque': 'queue'},
-                                   '_wa_noiseprotocol': {'$opaque': 'noise'}, '_YowLayer__upper': None, 'lock': {'held': False}}},
+        yield {'inputs': {'self': {'_flush_lock': {'held': False, 'all_blocking': True}, '_incoming_segments_queue': {'$opaque': 'queue'},
+                                   '_wa_noiseprotocol': {'$opaque': 'noise'}, '_YowLayer__upper': None, 'lock': {'held': False, 'all_blocking': True}}},
                'opaque_results': {'queue.qsize': sizes},
                'raises_at': rng.choice([{}, {'toUpper': [rng.randrange(0, 3)]}, {'noise.receive': [rng.randrange(0, 3)]}])}
 
@@ -129,13 +141,13 @@ def gen__flush_incoming_buffer(rng, n):
 def gen_gotPong(rng, n):
     for i in range(min(n, 40)):
         q = [(str(j), None) for j in range(rng.randrange(0, 3))]
-        yield {'inputs': {'self': {'_pingQueue': q, '_pingQueueLock': {'held': False}, '_YowIqProtocolLayer__logger': {'$opaque': 'logger'},
+        yield {'inputs': {'self': {'_pingQueue': q, '_pingQueueLock': {'held': False, 'all_blocking': True}, '_YowIqProtocolLayer__logger': {'$opaque': 'logger'},
                                    '_pingThread': None}, 'pingId': str(rng.randrange(0, 3))}}
 
 
 def gen_waitPong(rng, n):
     for i in range(min(n, 40)):
         q = [(str(j), None) for j in range(rng.randrange(0, 3))]
-        yield {'inputs': {'self': {'_pingQueue': q, '_pingQueueLock': {'held': False}, '_YowIqProtocolLayer__logger': {'$opaque': 'logger'},
+        yield {'inputs': {'self': {'_pingQueue': q, '_pingQueueLock': {'held': False, 'all_blocking': True}, '_YowIqProtocolLayer__logger': {'$opaque': 'logger'},
                                    '_pingThread': None}, 'id': str(rng.randrange(0, 4))},
                'opaque_results': {'getStack': [{'$opaque': 'stack'}]}}
